@@ -167,6 +167,83 @@ def check_C15(A, R, tier):
             if p[0] == "fin":
                 oks = set(c[0] for c in p[2])
         R.ob("R15.2", "%s | no record of the dependency => invalidated" % short(b.name), oks == {1}, detail="possible results: %s" % sorted(oks))
+    # R15.4: the comparison is asked about the right pair: its first id names the job whose output records are compared, its
+    # second id the consumer of the per-dependency record (the configured comparison may depend on both)
+    def id_syms(av):
+        if av is None or av[0] != "str":
+            return None
+        out = set()
+        for p in av[1]:
+            if p[0] == "jobid":
+                out.add(p[1])
+            else:
+                return None
+        return out or None
+    seen4 = set()
+    n4 = 0
+    for (entry, label), run in runs:
+        for v in run.by_kind("strategy_call"):
+            if v["method"] != "is_history_altered" or len(v["args"]) < 4 or (v["fn"], v["bb"]) in seen4:
+                continue
+            seen4.add((v["fn"], v["bb"]))
+            ida, idb = id_syms(v["args"][0]), id_syms(v["args"][1])
+            bad = []
+            for which, rec in (("recorded", v["args"][2]), ("current", v["args"][3])):
+                if rec is None or rec[0] != "str":
+                    continue
+                for p in rec[1]:
+                    if p[0] == "histout":
+                        if ida is not None and p[1] not in ida:
+                            bad.append("%s value is the output of another job than the one named first" % which)
+                    elif p[0] == "hist":
+                        for q in p[1]:
+                            if q[0] == "jobid":
+                                if ida is not None and q[1] not in ida:
+                                    bad.append("%s value is the record of another job than the one named first" % which)
+                            elif q[0] == "fmt" and len(q[1]) == 3 and q[1][0] is None and q[1][2] is None:
+                                sa, sb = id_syms(("str", q[2][0], frozenset())), id_syms(("str", q[2][1], frozenset()))
+                                if ida is not None and sa is not None and sa != ida:
+                                    bad.append("%s value is a per-dependency record of another upstream than the one named first" % which)
+                                if idb is not None and sb is not None and sb != idb:
+                                    bad.append("%s value is a per-dependency record into another job than the one named second" % which)
+                                if ida is not None and idb is not None and sa is not None and sb is not None and sa == idb and sb == ida and sa != sb:
+                                    bad.append("the two ids are passed in the wrong order")
+            n4 += 1
+            R.ob("R15.4", "%s | the comparison is asked about the pair of jobs whose records it is given" % short(v["fn"]), not bad,
+                 detail="; ".join(sorted(set(bad))[:3]), site=A.site(v))
+    R.floor("R15.4", "call sites of the configured comparison with known operands", n4, 3)
+    # R15.5: the cached verdict of a dependency is written only for the dependency that was compared
+    vfields = set()
+    for b in cands:
+        I, fr, out, col = forced_analysis(A, b, {STRAT + "is_history_altered": force_bool(True),
+                                                 "std::collections::HashMap::<K, V, S, A>::get": force_hist_some(A)},
+                                          cfgd=dict(label="EI5"), state=edge_state(A, unknown=True))
+        for k, v in I.rec.facts.items():
+            if k[0] == "write_edge":
+                vfields.add(v["proj"])
+    R.floor("R15.5", "edge field that caches the verdict of the dependency check", len(vfields), 1)
+    seen5 = set()
+    for (entry, label), run in runs:
+        byact = {}
+        for v in run.by_kind("write_edge"):
+            if v["proj"] in vfields:
+                byact.setdefault((v["fn"], v.get("fid")), []).append(v)
+        for (fn, fid), ws_ in byact.items():
+            if fn in seen5:
+                continue
+            pairs_ = set((w["a"], w["b"]) for w in ws_)
+            asked = set()
+            for sc in run.by_kind("strategy_call"):
+                if sc["method"] == "is_history_altered" and sc.get("fid") == fid:
+                    ia, ib = id_syms(sc["args"][0]), id_syms(sc["args"][1])
+                    if ia and ib and len(ia) == 1 and len(ib) == 1:
+                        asked.add((list(ia)[0], list(ib)[0]))
+            ok = len(pairs_) == 1 and (not asked or pairs_ <= asked)
+            if not ok or len(pairs_) == 1:
+                seen5.add(fn)
+            R.ob("R15.5", "%s | the verdict is cached only for the dependency that was compared" % short(fn), ok,
+                 detail="one activation writes the cached verdict of %d different dependencies (compared: %d): a verdict the comparison "
+                        "never gave for that pair decides whether its consumer is executed" % (len(pairs_), len(asked)), site=A.site(ws_[0]))
     # R15.3: the changed-output error needs the comparison to say 'altered'
     n = 0
     for (entry, label), run in runs:
@@ -234,6 +311,52 @@ def edge_state(A, unknown=True, proj=None, value=None):
         cell = av_set(cell, proj, value, A.uni)
     st.heap["__edge_default__"] = cell
     return st
+
+
+def rule_startup_declares_edges(A, R, rule):
+    from rules_more import residual_blocks
+    init_cell = edge_state(A, unknown=True).heap["__edge_default__"]
+    init_fields = adt_variants(init_cell)[0]
+    n = 0
+    for run in A.startup_runs():
+        ws = []
+        for w in run.by_kind("write_edge"):
+            roles = run.syms.get(w["b"], (frozenset(), None))[0]
+            if is_role((w["b"], roles), "topo") and isinstance(w["b"], tuple) and w["b"][0] == "b":
+                ws.append(w)
+        if not ws:
+            continue
+        loops = set((w["b"][1], w["b"][2]) for w in ws)
+        for (fid, head) in sorted(loops):
+            fnm = run.frames.get(fid)
+            body = A.facts.body(fnm[0]) if fnm else None
+            if body is None or len(body.natural_loop(head)) <= 1:
+                continue
+            mine = [w for w in ws if (w["b"][1], w["b"][2]) == (fid, head)]
+            fields = set(w["proj"] for w in mine)
+            for proj in sorted(fields):
+                fi = proj[0][1] if proj and proj[0][0] == "f" else None
+                undecided = init_fields[fi] if fi is not None and fi < len(init_fields) else None
+                good = [w for w in mine if w["proj"] == proj and not (undecided is not None and undecided[0] == "fin" and w["value"][0] == "fin"
+                                                                      and (set(w["value"][2]) & set(undecided[2])))]
+                blocks = set()
+                for w in good:
+                    pos = run.pos_in(w, fid)
+                    if pos is not None:
+                        blocks.add(pos[1])
+                errs = error_exit_blocks(A, body) | residual_blocks(body)
+                sw = body.term(head)["t"]
+                loop = body.natural_loop(head)
+                ok = True
+                for s0 in [s_ for s_ in body.succs(sw) if s_ in loop]:
+                    if head in run.taken_reachable(fid, s0, blocks | errs):
+                        ok = False
+                n += 1
+                R.ob(rule, "%s | %s | every visited job declares the flag %s of all its incoming dependencies (on every path)"
+                     % (short(body.name), run.label.split("|")[-1], A.L.edge_fields[fi]["name"] if fi is not None else proj), ok,
+                     detail="an iteration of the classification loop can complete without deciding the flag: an upstream visited later "
+                            "finds it undecided and reports an internal error", site=A.site(mine[0]))
+    R.floor(rule, "startup partitions x edge flags declared in the classification loop", n, 3)
 
 
 # =============================================================================================
@@ -586,6 +709,10 @@ def check_C03(A, R, tier):
     rule_started_failed_dropped(A, R, "R3.6")
     rule_failed_edges_untouched(A, R, "R3.6")
     rule_never_started_kept(A, R, "R3.6")
+    # R3.7: a job that was skipped early and whose upstream fails afterwards must not stay 'skipped': the failure reaches every
+    # direct downstream (= R7.1/R7.2)
+    from rules_more import rule_failure_propagation
+    rule_failure_propagation(A, R, "R3.7", "R3.7")
     from rules_history import rule_output_attached, pair_rule
     rule_output_attached(A, R, "R3.6")     # an attempt that is reported failed leaves no output behind that new_history would record
     pair_rule(A, R, "R3.6")                # the input-name list is (re)written only together with the output record of a success
@@ -1045,6 +1172,9 @@ def check_C06(A, R, tier):
     R.floor("R6.6", "emissions that must not be repeated", n, 3)
     # R6.7 the history can be assembled for every way a job without output can end
     rule_history_after_any_outcome(A, R, "R6.7")
+    # R6.8 the startup classification decides the 'needed' flag of every incoming dependency of every job it visits, on every path:
+    # jobs visited later (their upstreams: reverse topological order) read those flags and treat an undecided one as an internal error
+    rule_startup_declares_edges(A, R, "R6.8")
     # F7 is owned by C07 (R7.5); reference only
     R.explanation = ("Necessary conditions, each over all paths: state writes keep the kind (the kind-change panic is dead); explicit panics "
                      "outside the public API's argument checks are unreachable in the abstraction; every unwrap outside those checks is "
